@@ -136,6 +136,13 @@ fn hexwrite_canon(img: &[u8]) -> String {
         };
         let pc = dir.join("c.hex");
         let pe = dir.join("e.hex");
+        // two times out of three the target files already exist and are LONGER than what will be
+        // written (an earlier, bigger build): nothing of them may survive
+        if img.len() % 3 != 0 {
+            let stale = ":10000000FFFFFFFFFFFFFFFFFFFFFFFFFFFFFFFF00\n".repeat(img.len() / 4 + 8) + ":00000001FF\n";
+            std::fs::write(&pc, &stale).unwrap();
+            std::fs::write(&pe, &stale).unwrap();
+        }
         let rc = avra_lib::writer::write_code_hex(pc.clone(), &br);
         let re = avra_lib::writer::write_eeprom_hex(pe.clone(), &br);
         let out = match (rc, re) {
